@@ -198,7 +198,7 @@ def check_stream_case(case):
     codes = (3, 1, 4, 9)
     ctxs = [dict(start=bounds[i], end=bounds[i + 1],
                  streams={"v": dict(qartod=dict(vprobe_test=dict(code=codes[i % 4]), spike_test=dict(suspect_threshold=1, fail_threshold=5))),
-                          "w": dict(qartod=dict(vprobe_test=dict(code=codes[(i + 1) % 4])))}) for i in range(len(bounds) - 1)]
+                          "w": dict(qartod=dict(vprobe_test=dict(code=codes[(i + 1) % 4], plain=True)))}) for i in range(len(bounds) - 1)]
 
     def ctx_of(t):
         return next(i for i in range(len(bounds) - 1) if (bounds[i] is None or t >= bounds[i]) and (bounds[i + 1] is None or t < bounds[i + 1]))
@@ -258,7 +258,11 @@ def check_stream_case(case):
     if not isinstance(got_l, alpha.Raised):
         cl = canon_list(got_l)
         for key, col in (("v:vprobe_test", "v"), ("w:vprobe_test", "w")):
-            if key in cl and cl[key]["data"] != [float(x) for x in tab[col]]:
+            src_ = [float(x) for x in tab[col]]
+            got_ = list(cl[key]["data"]) if key in cl else None
+            if case["fe"] == "numpy:ma" and got_ is not None and len(got_) > 1:
+                got_[1], src_[1] = None, None   # (that row's datum is missing in the source: masked)
+            if key in cl and got_ != src_:
                 vs.append(V(f"{PROP}|stream:{case['fe']}|list|symptom=data-misplaced", f"collected data of {key} is {cl[key]['data']}", tab[col], cl[key]["data"]))
     return vs, True, None, 0, 4
 
@@ -290,7 +294,7 @@ def tasks(tier):
     for axes in ("all", "none"):
         ts.append(("bigseq", 30, axes))
         ts.append(("bigseq", 1500, axes))
-    for fe in ("pandas:range", "pandas:shift", "numpy:dict", "xarray:coord", "netcdf"):
+    for fe in ("pandas:range", "pandas:shift", "numpy:dict", "numpy:ma", "xarray:coord", "netcdf"):
         for z, ll in ((True, True), (False, False)):
             ts.append(("stream", fe, z, ll))
     return ts
